@@ -3,6 +3,7 @@
 // redirects the seams the simulator owns.
 //
 //	import "sync"                 -> import sync "verif/simrt/simsync"
+//	import "sync/atomic"          -> import atomic "verif/simrt/simatomic" (a scheduling point before every operation)
 //	go f(args)                    -> simrt.Go(func(){ f(args) })   (arguments evaluated first)
 //	time.AfterFunc / time.Sleep   -> simrt.AfterFunc / simrt.Sleep
 //	runtime.SetFinalizer          -> simrt.SetFinalizer (registers nothing)
@@ -33,6 +34,7 @@ import (
 const (
 	simrtPath   = "verif/simrt"
 	simsyncPath = "verif/simrt/simsync"
+	simatomPath = "verif/simrt/simatomic"
 )
 
 type report struct {
@@ -194,6 +196,11 @@ func instrument(path, rel, out string) error {
 				c.rtName = name
 			}
 		case "sync/atomic":
+			// same API, every operation preceded by a scheduling point (real atomics underneath)
+			im.Path.Value = strconv.Quote(simatomPath)
+			if im.Name == nil {
+				im.Name = ast.NewIdent("atomic")
+			}
 			rep.AtomicUsers = append(rep.AtomicUsers, rel)
 		}
 	}
